@@ -6,9 +6,4 @@ open Output C19
 theorem quiet_ignored_under_json :
     (jsonRows.all fun r => outcome r == outcome { r with quiet := !r.quiet }) = true := by decide +kernel
 
-theorem table_is_total :
-    (rows.all fun r => (outcome r).isSome) = true
-    ∧ (Cmd.all.all fun c => match emittedDoc c with | some p => (docShape p).isSome | none => false) = true := by
-  decide +kernel
-
 end C19.Part
